@@ -91,12 +91,19 @@ type b2bServer struct {
 	acMaxMsg int
 }
 
-func startServer(t *testing.T, name string, chunk int, zstdOK bool, pool bb_zstd.Pool) *b2bServer {
+func startServer(t fataler, name string, chunk int, zstdOK bool, pool bb_zstd.Pool) *b2bServer {
+	return startServerWith(t, name, chunk, zstdOK, pool, nil, nil)
+}
+
+// startServerWith additionally takes server options (the bounded-pool test
+// installs a stream interceptor that records when handlers end) and extra
+// dial options (flow-control windows).
+func startServerWith(t fataler, name string, chunk int, zstdOK bool, pool bb_zstd.Pool, serverOpts []grpc.ServerOption, dialOpts []grpc.DialOption) *b2bServer {
 	s := &b2bServer{name: name, chunk: chunk, zstdOK: zstdOK, cas: &swapBackend{}, ac: &swapBackend{}, acMaxMsg: 1 << 16}
 	s.cas.set(backends.NewMem("cas", digest.KeyWithoutInstance))
 	s.ac.set(acMem{backends.NewMem("ac", digest.KeyWithInstance)})
 	s.lis = bufconn.Listen(1 << 20)
-	s.srv = grpc.NewServer()
+	s.srv = grpc.NewServer(serverOpts...)
 	remoteexecution.RegisterContentAddressableStorageServer(s.srv, grpcservers.NewContentAddressableStorageServer(s.cas, 1<<20))
 	bytestream.RegisterByteStreamServer(s.srv, grpcservers.NewByteStreamServer(s.cas, chunk, pool))
 	remoteexecution.RegisterActionCacheServer(s.srv, grpcservers.NewActionCacheServer(s.ac, s.acMaxMsg))
@@ -116,9 +123,10 @@ func startServer(t *testing.T, name string, chunk int, zstdOK bool, pool bb_zstd
 		}),
 	})))
 	go s.srv.Serve(s.lis)
-	conn, err := grpc.NewClient("passthrough:///"+name,
+	conn, err := grpc.NewClient("passthrough:///"+name, append([]grpc.DialOption{
 		grpc.WithContextDialer(func(ctx context.Context, _ string) (net.Conn, error) { return s.lis.DialContext(ctx) }),
-		grpc.WithTransportCredentials(insecure.NewCredentials()))
+		grpc.WithTransportCredentials(insecure.NewCredentials()),
+	}, dialOpts...)...)
 	if err != nil {
 		t.Fatalf("dial: %v", err)
 	}
@@ -317,6 +325,11 @@ type fataler interface {
 }
 
 func guard(t fataler, what string, f func()) {
+	guardFor(t, what, hangLimit, f)
+}
+
+// guardFor is guard with a limit of the caller's choice.
+func guardFor(t fataler, what string, hangLimit time.Duration, f func()) {
 	done := make(chan struct{})
 	go func() {
 		defer close(done)
